@@ -154,6 +154,33 @@ func (env *Env) eval(x *SExpr) SV {
 		n := cells(st.Elem())
 		return SV{t: Val{base.t[0], c.add(base.t[1], c.mulK(lo, n)), c.I("(- %s %s)", hi, lo), c.I("(- %s %s)", base.t[3], lo)}, typ: base.typ}
 	case "forall", "exists":
+		if x.Op == "exists" && len(x.Args) > 1 && !env.hyp && len(x.Binders) == 1 {
+			// proving an existential: it holds if it holds for one of the named candidates
+			var alts []string
+			for _, h := range x.Args[1:] {
+				w, ok := env.tryEvalInt(h)
+				if !ok {
+					continue // the candidate names something that does not exist at this return site
+				}
+				sub := *env
+				sub.vars = map[string]SV{}
+				for k, v := range env.vars {
+					sub.vars[k] = v
+				}
+				sub.vars[x.Binders[0]] = mathInt(w)
+				if env.oldEnv != nil {
+					o := *env.oldEnv
+					o.vars = map[string]SV{}
+					for k, v := range env.oldEnv.vars {
+						o.vars[k] = v
+					}
+					o.vars[x.Binders[0]] = mathInt(w)
+					sub.oldEnv = &o
+				}
+				alts = append(alts, sub.evalBool(x.Args[0]))
+			}
+			return mathBool(c.B("(or %s false)", strings.Join(alts, " ")))
+		}
 		sub := *env
 		sub.vars = map[string]SV{}
 		for k, v := range env.vars {
@@ -913,4 +940,17 @@ func readOnlyParamSpill(a *ssa.Alloc) bool {
 		}
 	}
 	return stores == 1
+}
+
+func (env *Env) tryEvalInt(x *SExpr) (t string, ok bool) {
+	defer func() {
+		if r := recover(); r != nil {
+			if _, isSpec := r.(engineError); isSpec {
+				t, ok = "", false
+				return
+			}
+			panic(r)
+		}
+	}()
+	return env.evalInt(x), true
 }
